@@ -440,7 +440,7 @@ impl G<'_> {
     }
 
     fn action(&mut self) {
-        match self.rng.below(40) {
+        match self.rng.below(42) {
             0..=3 => self.vectors(),
             4..=6 => self.state(),
             7 | 8 => {
@@ -686,6 +686,28 @@ impl G<'_> {
                 self.op(o + ab);
                 self.store(1);
                 self.kinds.push("round");
+            }
+            40 | 41 => {
+                // read a phantom point (glyph zone points n .. n+3): original (unrounded) or current (rounded)
+                // coordinate, or its distance to a glyph point
+                self.set_zp(2, 1);
+                self.set_zp(0, 1);
+                self.set_zp(1, 1);
+                self.observer();
+                let ph = self.n + self.rng.below(4) as i32;
+                if self.rng.chance(2, 3) {
+                    self.push(ph);
+                    let a = self.rng.below(2) as u8;
+                    self.op(GC_CUR + a);
+                } else {
+                    let q = self.pt(1);
+                    self.push(ph);
+                    self.push(q);
+                    let a = self.rng.below(2) as u8;
+                    self.op(MD_CUR + a);
+                }
+                self.store(1);
+                self.kinds.push("phantom");
             }
             _ => {
                 // arithmetic on two values, stored
@@ -1012,12 +1034,17 @@ fn request(f: &PFont, g: &PGlyph, ppem: u32, mode: Mode) -> String {
         let (ox, oy) = (sc(*x as i64), sc(*y as i64));
         v.extend([ox, oy, ox, oy, *x as i64, *y as i64, *on as i64]);
     }
+    // the four phantom points as SCALED, UNROUNDED values (tt_loader_set_pp / setup_phantom_points, then
+    // scaling): pp1 = origin (lsb = xMin), pp2 = advance, pp3 / pp4 from the hhea ascender / descender (no OS/2,
+    // no vmtx) with x = advance / 2 under grayscale subpixel hinting (the normal target).  Each model derives the
+    // (original, current) pair the interpreter starts with itself (`hintPhantom`: copy first, round second).
     let adv = (f.upem / 2 + 37) as i64;
-    let pp2 = (sc(adv) + 32) & !63;
-    v.extend([0, 0, 0, 0, 0, 0, 1]);
-    v.extend([pp2, 0, pp2, 0, adv, 0, 1]);
-    v.extend([0, 0, 0, 0, 0, 0, 1]);
-    v.extend([0, 0, 0, 0, 0, 0, 1]);
+    let up = f.upem as i16;
+    let (asc, desc) = ((up / 5 * 4) as i64, (-up / 5) as i64);
+    let vx = if mode == Mode::Normal { adv / 2 } else { 0 };
+    for (ux, uy) in [(0, 0), (adv, 0), (vx, asc), (vx, desc)] {
+        v.extend([sc(ux), sc(uy), sc(ux), sc(uy), ux, uy, 1]);
+    }
     v.push(N_TWI as i64);
     for _ in 0..N_TWI {
         v.extend([0, 0, 0, 0]);
